@@ -46,6 +46,7 @@ def api_table(variant, pmax, fmax, rnd):
     return t
 
 
+CLIENT_IDS = ["verif", "verif", "verif", "", None, "cli\u00e9nt"]  # as configured; None = the library's default id
 MD_ORDERS = ["asc", "asc", "desc", "rot"]  # order in which a metadata reply lists a topic's partitions
 
 
@@ -63,7 +64,7 @@ def config_strategy(max_brokers=4):
             "topics": topics,
             # a broker that closes the connection on ApiVersions (pre-0.10) makes the client reconnect in a tight loop
             # for the whole timeout: keep that timeout short so the case stays small
-            "timeout_ms": draw(st.sampled_from([500, 1000, 1000, 10000])) if disc != "close" else 500,
+            "timeout_ms": draw(st.sampled_from([500, 1000, 1000, 1500, 2500, 10000])) if disc != "close" else 500,
             "dot": draw(st.booleans()),
             "discovery": disc,
             "table": draw(st.sampled_from(["dense", "dense", "sparse", "fetch-first", "shuffled"])),
@@ -72,6 +73,7 @@ def config_strategy(max_brokers=4):
             "bootstrap": draw(st.lists(st.integers(0, nb + 1), min_size=1, max_size=3, unique=True)),
             "rseed": draw(st.integers(0, 999)),
             "md_order": draw(st.sampled_from(MD_ORDERS)),
+            "client_id": draw(st.sampled_from(CLIENT_IDS)),
         }
 
     return cfg()
@@ -105,8 +107,10 @@ def build(config):
         else:
             hosts.append(DEAD[(i - config["brokers"]) % len(DEAD)])
     random.seed(config["rseed"])
+    cid = config.get("client_id", "verif")
+    cl.expect_client_id = b"afkak-client" if cid is None else cid.encode("utf-8")
     client = KafkaClient(
-        hosts=["%s:%d" % h for h in hosts], clientId="verif", timeout=config["timeout_ms"], disconnect_on_timeout=config["dot"], reactor=w.clock,
+        hosts=["%s:%d" % h for h in hosts], clientId=cid, timeout=config["timeout_ms"], disconnect_on_timeout=config["dot"], reactor=w.clock,
         endpoint_factory=w.endpoint_factory, retry_policy=lambda n: min(0.317 * n, 7.3), enable_protocol_version_discovery=(d != "off"),
     )
     return w, cl, client, hosts
@@ -1029,6 +1033,10 @@ class CLEngine(Engine):
                 if hasattr(f, "check") and f.check(C.RequestTimedOutError):
                     self.labels.add("timed-out")
                     self.nt.add("timed-out-request")
+                    # C11 (1): a warm call's request is not given up as timed out before the configured timeout has passed
+                    if c.deadline is not None and c.watch.fired[0][1] < c.deadline - 1e-9 and not getattr(c, "_early_noted", False):
+                        c._early_noted = True
+                        self.note("C11.bounded", "C11.timed-out-early/%s" % c.kind, "call #%d (%s) issued t=%.3f with timeout %.2fs reported payload %r as timed out already at t=%.3f" % (c.no, c.kind, c.time, c.timeout, (pl.topic, pl.partition), c.watch.fired[0][1]))
                     # C11 (last sentence): with disconnect-on-timeout the silent connection is dropped - every time, not only the first
                     if self.config["dot"] and not self.closed and c.warm:
                         k = (pl.topic, pl.partition)
@@ -1443,6 +1451,8 @@ class CLEngine(Engine):
                 self._process(p[0])
                 m += 1
                 self.raise_noted()
+        if cl.field_errors:
+            self.note("C04.fields", "C04.fields/header/client-id", cl.field_errors[0])
         if cl.grammar_errors:
             self.note("C04.grammar", "C04.grammar/" + cl.grammar_errors[0]["error"][:40], "request rejected by the strict parser: %r" % cl.grammar_errors[0])
         self._check_versions()
